@@ -135,6 +135,8 @@ pub struct FullType {
     pub interfaces: Option<Vec<FullTypeInterfaces>>,
     pub enum_values: Option<Vec<FullTypeEnumValues>>,
     pub possible_types: Option<Vec<FullTypePossibleTypes>>,
+    /// `isOneOf`: only present when the introspection query asked for it (`--is-one-of`).
+    pub is_one_of: Option<bool>,
 }
 
 #[derive(Clone, Debug, Deserialize)]
